@@ -85,7 +85,7 @@ pub fn gen(ctx: &mut Ctx) -> Option<GCase> {
     }
     let has_ty = params.iter().any(|p| matches!(p, P::Ty { .. }));
     let own_where = has_ty && ctx.flag();
-    let where_instr = if has_ty && mode != 3 { ctx.choose(3) } else { 0 };
+    let where_instr = if has_ty && mode != 3 { ctx.choose(5) } else { 0 };
     let turbofish = mode != 4 && ctx.flag();
     let mut tags = vec![format!("mode={}", ["mirror", "concrete-args", "counterpart-lifetime", "counterpart-lifetime+own-params", "borrow-from-reference"][mode]), format!("where_instr={}", where_instr), format!("turbofish={}", turbofish)];
     for p in &params {
@@ -181,6 +181,13 @@ impl GCase {
                     }
                 }
                 match self.where_instr {
+                    // a default clause that does not help + dedicated clauses that do: the dedicated one must reach its counterpart's impls
+                    3 => {
+                        let _ = writeln!(o, "#[where_clause(T: Sized)]\n#[where_clause({}| T: Clone)]\n#[where_clause({}| T: Clone)]", self.cp_path(false), self.cp_path(true));
+                    }
+                    4 => {
+                        let _ = writeln!(o, "#[where_clause({}| T: Clone)]\n#[where_clause(T: Sized)]\n#[where_clause({}| T: Clone)]", self.cp_path(false), self.cp_path(true));
+                    }
                     1 => o.push_str("#[where_clause(T: Clone)]\n"),
                     2 => {
                         // a dedicated clause per counterpart
